@@ -8,7 +8,7 @@ use crate::kernel::*;
 use fuel_compression::{CompressibleBy, DecompressibleBy};
 use fuel_tx::field::{InputContract, Inputs, OutputContract, Outputs, ReceiptsRoot, TxPointer as TxPointerField, Witnesses};
 use fuel_tx::{Cacheable, CompressedTransaction, Input, Output, Transaction, UniqueIdentifier, Witness};
-use fuel_types::canonical::Serialize as _;
+use fuel_types::canonical::{Deserialize as _, Serialize as _};
 use fuel_types::{Bytes32, ChainId};
 use serde::{Deserialize, Serialize};
 use serde_json::{json, Value};
@@ -17,8 +17,13 @@ use std::rc::Rc;
 
 #[derive(Debug, Clone, Serialize, Deserialize, PartialEq)]
 pub struct TxItem {
-    /// postcard(serde) bytes of the `Transaction`, hex.
+    /// Canonical bytes of the `Transaction`, hex (independent of the serde impls the compressed
+    /// form travels through).
     pub tx: String,
+    /// Indices of message inputs that use the `MessageData*` variant with empty data (the
+    /// canonical form cannot tell them from `MessageCoin*`; the public constructors allow them).
+    #[serde(default)]
+    pub data_variant: Vec<u16>,
     /// Compute the cached metadata (cached id) before compressing.
     #[serde(default)]
     pub precompute: bool,
@@ -129,13 +134,56 @@ fn witnesses_of(t: &Transaction) -> &[Witness] {
     }
 }
 
-fn decode_tx(item: &TxItem) -> Option<Transaction> {
-    let bytes = hex::decode(&item.tx).ok()?;
-    postcard::from_bytes::<Transaction>(&bytes).ok()
+fn inputs_mut_of(t: &mut Transaction) -> Option<&mut Vec<Input>> {
+    match t {
+        Transaction::Script(x) => Some(x.inputs_mut()),
+        Transaction::Create(x) => Some(x.inputs_mut()),
+        Transaction::Mint(_) => None,
+        Transaction::Upgrade(x) => Some(x.inputs_mut()),
+        Transaction::Upload(x) => Some(x.inputs_mut()),
+        Transaction::Blob(x) => Some(x.inputs_mut()),
+    }
 }
 
-fn encode_tx(t: &Transaction) -> String {
-    hex::encode(postcard::to_allocvec(t).unwrap_or_default())
+fn decode_tx(item: &TxItem) -> Option<Transaction> {
+    let bytes = hex::decode(&item.tx).ok()?;
+    let mut t = Transaction::from_bytes(&bytes).ok()?;
+    if !item.data_variant.is_empty() {
+        let ins = inputs_mut_of(&mut t)?;
+        for i in &item.data_variant {
+            let slot = ins.get_mut(*i as usize)?;
+            let new = match &*slot {
+                Input::MessageCoinSigned(m) => Input::message_data_signed(m.sender, m.recipient, m.amount, m.nonce, m.witness_index, vec![]),
+                Input::MessageCoinPredicate(m) => Input::message_data_predicate(
+                    m.sender,
+                    m.recipient,
+                    m.amount,
+                    m.nonce,
+                    m.predicate_gas_used,
+                    vec![],
+                    m.predicate.to_vec(),
+                    m.predicate_data.to_vec(),
+                ),
+                _ => return None,
+            };
+            *slot = new;
+        }
+    }
+    Some(t)
+}
+
+fn encode_tx(t: &Transaction, precompute: bool, recheck: bool) -> TxItem {
+    let data_variant = inputs_of(t)
+        .iter()
+        .enumerate()
+        .filter(|(_, i)| match i {
+            Input::MessageDataSigned(m) => m.data.is_empty(),
+            Input::MessageDataPredicate(m) => m.data.is_empty(),
+            _ => false,
+        })
+        .map(|(n, _)| n as u16)
+        .collect();
+    TxItem { tx: hex::encode(t.to_bytes()), data_variant, precompute, recheck }
 }
 
 /// Register what the chain knows about the inputs of `t`. False: `t` contradicts the chain.
@@ -613,7 +661,7 @@ impl Engine for Da {
             .map(|_| {
                 let kind = g.weighted(&w);
                 let t = pools.tx(&mut g, kind);
-                TxItem { tx: encode_tx(&t), precompute: g.chance(1, 4), recheck: g.chance(1, 4) }
+                encode_tx(&t, g.chance(1, 4), g.chance(1, 4))
             })
             .collect();
         let block_sizes: Vec<u8> = (0..4).map(|_| s.range(1, 4) as u8).collect();
@@ -984,13 +1032,31 @@ impl Engine for Da {
             f(&mut s);
             s
         };
+        // Remove txs[a..b]; with `shift` the fault plan follows the transactions behind the cut
+        // (attempt numbers equal stream positions as long as nothing is retried).
+        let cut = |a: usize, b: usize, shift: bool| {
+            with(&|s| {
+                s.txs.drain(a..b);
+                if shift {
+                    let w = (b - a) as u32;
+                    s.faults.retain(|f| (f.attempt as usize) < a || f.attempt as usize >= b);
+                    for f in &mut s.faults {
+                        if f.attempt as usize >= b {
+                            f.attempt -= w;
+                        }
+                    }
+                }
+            })
+        };
+        let has_faults = !sc.faults.is_empty();
         if n > 1 {
-            out.push(with(&|s| s.txs.truncate(n / 2)));
-            out.push(with(&|s| {
-                s.txs.drain(..n / 2);
-            }));
+            out.push(cut(n / 2, n, false));
+            if has_faults {
+                out.push(cut(0, n / 2, true));
+            }
+            out.push(cut(0, n / 2, false));
         }
-        if !sc.faults.is_empty() || !sc.dfaults.is_empty() {
+        if has_faults || !sc.dfaults.is_empty() {
             out.push(with(&|s| {
                 s.faults.clear();
                 s.dfaults.clear();
@@ -998,20 +1064,36 @@ impl Engine for Da {
         }
         if n > 4 {
             for q in 0..4 {
-                out.push(with(&|s| {
-                    s.txs.drain(q * n / 4..(q + 1) * n / 4);
-                }));
+                if has_faults {
+                    out.push(cut(q * n / 4, (q + 1) * n / 4, true));
+                }
+                out.push(cut(q * n / 4, (q + 1) * n / 4, false));
             }
         }
         for i in (0..n).rev() {
-            out.push(with(&|s| {
-                s.txs.remove(i);
-            }));
+            if has_faults {
+                out.push(cut(i, i + 1, true));
+            }
+            out.push(cut(i, i + 1, false));
         }
         for i in 0..sc.faults.len() {
             out.push(with(&|s| {
                 s.faults.remove(i);
             }));
+        }
+        for i in 0..sc.faults.len() {
+            if sc.faults[i].requeue != 0 {
+                out.push(with(&|s| s.faults[i].requeue = 0));
+            }
+            match sc.faults[i].kind {
+                FaultKind::FailCall { k, after_effect } if k > 0 => {
+                    out.push(with(&|s| s.faults[i].kind = FaultKind::FailCall { k: k / 2, after_effect }));
+                }
+                FaultKind::Cancel { polls } if polls > 1 => {
+                    out.push(with(&|s| s.faults[i].kind = FaultKind::Cancel { polls: polls / 2 }));
+                }
+                _ => {}
+            }
         }
         for i in 0..sc.dfaults.len() {
             out.push(with(&|s| {
